@@ -263,6 +263,7 @@ func (fr *fzRun) checkAfter(desc string, node *simrt.Node, panicsBefore, fatalsB
 func (fr *fzRun) runReplica() {
 	s := fr.s
 	w := simrt.NewWorld(s.Seed, synctest.Wait)
+	w.StrictLocks = os.Getenv("VERIF_LOOSE_LOCKS") == ""
 	w.TraceOn = os.Getenv("VERIF_TRACE") != ""
 	defer w.Close()
 	fr.w = w
@@ -384,6 +385,7 @@ func (fr *fzRun) finish() {
 func (fr *fzRun) runController() {
 	s := fr.s
 	w := simrt.NewWorld(s.Seed, synctest.Wait)
+	w.StrictLocks = os.Getenv("VERIF_LOOSE_LOCKS") == ""
 	w.TraceOn = os.Getenv("VERIF_TRACE") != ""
 	defer w.Close()
 	fr.w = w
